@@ -428,6 +428,14 @@ pub trait InstrFormat {
     fn instr_size(&self, instr: &RawInstr) -> usize { self.instr_header_size() + instr.args_blob.len() }
 }
 
+/// Helper for [`InstrFormat::write_instr`] implementations: convert a header field to the integer type
+/// that stores it on disk, reporting an error (instead of writing a different value) if it does not fit.
+pub fn instr_header_field<T: TryFrom<i64>>(emitter: &dyn Emitter, what: &str, value: i64) -> Result<T, crate::error::ErrorReported> {
+    T::try_from(value).map_err(|_| emitter.as_sized().emit(error!(
+        "{what} {value} cannot be stored in this format's instruction header",
+    )))
+}
+
 #[derive(Debug)]
 pub enum ReadInstr {
     /// A regular instruction was read that belongs in the script.
